@@ -15,6 +15,7 @@ import Proofs.C09_Rebuild
 import Proofs.C09_General
 import Proofs.C09_Convert
 import Proofs.C09_DocGrid
+import Proofs.C09_XmlGrid
 namespace Mammoth
 
 /-! ## 1. `calculate_row_spans` on a well-formed grid -/
@@ -259,5 +260,181 @@ example : ((visit {} false (.table none none (calculateRowSpans (c09_toElems (fu
          [el S!"tr" [] [.forceWrite, el S!"td" [] [.forceWrite], el S!"td" [] [.forceWrite]],
           el S!"tr" [] [.forceWrite, el S!"td" [] [.forceWrite], el S!"td" [] [.forceWrite],
             el S!"td" [] [.forceWrite]]]]] := by rfl
+
+/-! ## 6. END TO END: from the XML of a table
+
+Specification functions on the XML (Proofs/C09_Xml.lean, written with `c11x_named` / `c11x_propVal`, not with the
+reader's helpers): `c09x_gridSpan tcPr` — `w:gridSpan/@w:val` as a decimal number, 1 if absent; `c09x_merge tcPr` — no
+`w:vMerge`: none; `w:vMerge` without value, with an empty value or `continue`: continuation; any other value
+(`restart`): restart; `c09x_isHeader` — the row's `w:trPr` has a `w:tblHeader`; `c09x_xmlGrid cs` — one row per `w:tr`
+child of the table, one cell (span, merge kind, no content) per `w:tc` child of the row; `c09x_xmlHdr cs` — the header
+flags of the rows.  `c09x_tableShape cs`: every element child of the `w:tbl` is a `w:tr` or has no handler (`w:tblPr`,
+`w:tblGrid`, unknown elements), every element child of such a `w:tr` is a `w:tc` or has no handler (`w:trPr`, …);
+the content of the cells is arbitrary.
+`c09x_readRows env f st cs`: the grid with the cells' contents as the element reader (fuel `f`) reads them, in document
+order, threading the reader state; with the extra elements and messages of the contents (plus the messages about
+unknown elements). -/
+
+/-- the reader's view of a cell: colspan = grid span, rowspan 1, the `_vmerge` mark iff the merge kind read off the
+    XML is "continuation"; the mark is what `read_vmerge` computes -/
+theorem C09_xml_cell_props (tcPr : List XmlNode) :
+    readVmerge tcPr = (c09x_merge tcPr == .cont) ∧
+    (∀ n, c09x_spanE tcPr = .ok n → c09x_gridSpan tcPr = some n) ∧
+    (childAttr S!"w:gridSpan" S!"w:val" tcPr = none → c09x_gridSpan tcPr = some 1) := by
+  refine ⟨c09x_readVmerge tcPr, fun n h => c09x_spanE_ok h, fun h => ?_⟩
+  rw [c11x_childAttr] at h
+  simp [c09x_gridSpan, h]
+
+/-- READER HALF.  For a `w:tbl` (any attributes) whose children `cs` have the table shape, the element reader with
+    fuel `f+3` returns — or fails — exactly as the structured reading `c09x_readRows` of the rows with fuel `f` for the
+    cell contents does; on success the result is ONE table element
+    `.table styleId styleName (calculateRowSpans (c09_toElems hdr grid)).1`, where `grid` is the grid read
+    (`c09_toElems`: one `.row` per `w:tr` with its header flag, one `.cell span 1 isContinuation content` per `w:tc`),
+    with the contents' extra elements and the messages (style warning, contents, `calculate_row_spans`). -/
+theorem C09_read_table (env : REnv) (f : Nat) (st : RState) (as : Attrs) (cs : List XmlNode)
+    (hshape : c09x_tableShape cs = true) :
+    readElem env (f+3) st (.elem S!"w:tbl" as cs) =
+      (c09x_readRows env f st cs).map fun p =>
+        ({ elements := [.table (c09x_tblStyle env cs).1.1 (c09x_tblStyle env cs).1.2
+              (calculateRowSpans (c09_toElems (c09x_hdrFn (p.1.1.map (·.1))) (p.1.1.map (·.2)))).1],
+           extra := p.1.2.1,
+           messages := (c09x_tblStyle env cs).2 ++ (p.1.2.2 ++
+              (calculateRowSpans (c09_toElems (c09x_hdrFn (p.1.1.map (·.1))) (p.1.1.map (·.2)))).2) }, p.2) :=
+  c09x_read_table env f st as cs hshape
+
+/-- the grid that is read is, cell contents apart, the grid read off the XML alone, with the XML's header flags -/
+theorem C09_read_grid_is_xml_grid (env : REnv) (f : Nat) (st : RState) (cs : List XmlNode)
+    (p : c09x_Res (List (Bool × c09_Row))) (hread : c09x_readRows env f st cs = .ok p) :
+    (p.1.1.map (·.2)).map (fun row => row.map c09x_strip) = c09x_xmlGrid cs ∧ p.1.1.map (·.1) = c09x_xmlHdr cs := by
+  obtain ⟨h1, h2⟩ := c09x_readRows_grid env f cs st p hread
+  exact ⟨by rw [← h1]; simp [List.map_map, Function.comp], h2⟩
+
+/-- validity and the document grid do not look at the contents of the cells -/
+theorem C09_grid_content_irrelevant (rows : List c09_Row) (y x : Nat) :
+    c09_validGrid (rows.map fun row => row.map c09x_strip) = c09_validGrid rows ∧
+    c09_docGrid (rows.map fun row => row.map c09x_strip) y x = c09_docGrid rows y x :=
+  ⟨c09x_validGrid_strip rows, c09x_docGrid_strip rows y x⟩
+
+/-- FROM THE XML TO THE LAYOUT.  Hypotheses, all on the XML: the children `cs` of the `w:tbl` have the table shape
+    (`hshape`); the grid read off the XML is well-formed (`hvalid`: every `w:gridSpan` is a number ≥ 1, all rows have
+    the same total width, every continuation cell has directly above it a restart/continuation cell with the same
+    start column and span); and the element reader (ANY fuel `g`) succeeds on the table (`hread`).
+    Then the result is one table element whose rows are `c09_expected hdr grid` for a grid that is the XML grid with
+    contents filled in — one row per `w:tr` with its header flag, in it one cell per `w:tc` that is not a
+    continuation, colspan = `w:gridSpan`, rowspan = 1 + the number of continuation cells below it — and laying these
+    rows out by the HTML table algorithm puts on every slot (y, x) exactly the owner of that position in the XML
+    grid (`c09_docGrid`), and nothing where the XML grid has no cell. -/
+theorem C09_xml_table_layout (env : REnv) (g : Nat) (st st1 : RState) (as : Attrs) (cs : List XmlNode)
+    (rr : ReadResult)
+    (hshape : c09x_tableShape cs = true)
+    (hvalid : c09_validGrid (c09x_xmlGrid cs) = true)
+    (hread : readElem env g st (.elem S!"w:tbl" as cs) = .ok (rr, st1)) :
+    ∃ grid : List c09_Row,
+      grid.map (fun row => row.map c09x_strip) = c09x_xmlGrid cs ∧
+      c09_validGrid grid = true ∧
+      rr.elements = [.table (c09x_tblStyle env cs).1.1 (c09x_tblStyle env cs).1.2
+                      (c09_expected (c09x_hdrFn (c09x_xmlHdr cs)) grid)] ∧
+      ∀ y x, c09_htmlLayout (c09_cellsOf (c09_expected (c09x_hdrFn (c09x_xmlHdr cs)) grid)) y x =
+               (c09_docGrid (c09x_xmlGrid cs) y x).toList := by
+  have h3 := (c05_readElem_le_add env g 3 st _).h _ hread
+  rw [c09x_read_table env g st as cs hshape] at h3
+  cases hp : c09x_readRows env g st cs with
+  | error e => rw [hp] at h3; cases h3
+  | ok p =>
+    rw [hp] at h3
+    simp only [Except.map, Except.ok.injEq] at h3
+    obtain ⟨hg, hh, hv, hres⟩ := c09x_read_valid env g st cs p hvalid hp
+    rw [hres] at h3
+    refine ⟨p.1.1.map (·.2), hg, hv, ?_, ?_⟩
+    · rw [← (Prod.mk.inj h3).1]
+    · intro y x
+      have := C09_layout_eq (c09x_hdrFn (c09x_xmlHdr cs)) _ hv y x
+      simp only [c09_validGrid, Bool.and_eq_true] at hv
+      rw [c09_rowspans_spec_from _ _ hv.1] at this
+      rw [this, ← hg]
+      exact congrArg Option.toList (c09x_docGrid_strip _ y x).symm
+
+/-- …AND TO THE HTML.  Under the same hypotheses, if the table is not mapped to `!` (`hpath`) and converting the
+    element(s) read succeeds (`hrun`), the nodes are the table path around: the force-write marker, then the `tr`s
+    (or `thead` / `tbody` of `tr`s when the first row is a header row), one `tr` per row and, per row, one `th`/`td`
+    per cell of `c09_expected hdr grid` with attributes `cellAttrs colspan rowspan` (`c09_rowRel`) — the cells whose
+    HTML layout is the document grid by `C09_xml_table_layout`. -/
+theorem C09_xml_table_html (env : REnv) (g : Nat) (st st1 : RState) (as : Attrs) (cs : List XmlNode)
+    (rr : ReadResult) (cfg : Cfg) (hdr : Bool) (es : List Tag) (s s' : ConvState) (nodes : List Node)
+    (hshape : c09x_tableShape cs = true)
+    (hvalid : c09_validGrid (c09x_xmlGrid cs) = true)
+    (hread : readElem env g st (.elem S!"w:tbl" as cs) = .ok (rr, st1))
+    (hpath : (findPath cfg (.table (c09x_tblStyle env cs).1.1 (c09x_tblStyle env cs).1.2)).getD
+                (.elements [pathElem S!"table" true]) = .elements es)
+    (hrun : (visitAll cfg hdr rr.elements).run s = .ok (nodes, s')) :
+    ∃ (grid : List c09_Row) (rows : List Elem) (headNs bodyNs : List Node),
+      grid.map (fun row => row.map c09x_strip) = c09x_xmlGrid cs ∧
+      rows = c09_expected (c09x_hdrFn (c09x_xmlHdr cs)) grid ∧
+      (∀ y x, c09_htmlLayout (c09_cellsOf rows) y x = (c09_docGrid (c09x_xmlGrid cs) y x).toList) ∧
+      nodes = wrapElems es (.forceWrite ::
+        (if bodyIndex rows = 0 then bodyNs else [el S!"thead" [] headNs, el S!"tbody" [] bodyNs])) ∧
+      c09_Forall2 (c09_rowRel true) (rows.take (bodyIndex rows)) headNs ∧
+      c09_Forall2 (c09_rowRel false) (rows.drop (bodyIndex rows)) bodyNs := by
+  obtain ⟨grid, hg, _, hel, hlay⟩ := C09_xml_table_layout env g st st1 as cs rr hshape hvalid hread
+  rw [hel, c09_visitAll_cons, c09_bind_ok] at hrun
+  obtain ⟨a, s1, h1, hrun⟩ := hrun
+  rw [c09_visitAll_nil, c09_bind_ok] at hrun
+  obtain ⟨b, s2, h2, hrun⟩ := hrun
+  rw [c09_pure_ok] at h2 hrun
+  obtain ⟨headNs, bodyNs, hn, hh, hb⟩ := C09_table_structure cfg hdr _ _ _ es s s1 a
+    (c09x_expected_rows _ grid 0) hpath h1
+  refine ⟨grid, _, headNs, bodyNs, hg, rfl, hlay, ?_, hh, hb⟩
+  rw [← hrun.1, ← h2.1, List.append_nil, hn]
+  rfl
+
+/-! example: the grid `c09_ex` as XML —
+    `<w:tbl><w:tblPr/><w:tblGrid/>
+       <w:tr><w:trPr><w:tblHeader/></w:trPr>
+             <w:tc><w:tcPr><w:vMerge w:val="restart"/></w:tcPr><w:p><w:r><w:t>a</w:t></w:r></w:p></w:tc>
+             <w:tc><w:tcPr><w:gridSpan w:val="2"/></w:tcPr><w:p><w:r><w:t>b</w:t></w:r></w:p></w:tc></w:tr>
+       <w:tr><w:tc><w:tcPr><w:vMerge/></w:tcPr></w:tc><w:tc/><w:tc/></w:tr>
+       <w:tr><w:tc/><w:tc><w:tcPr><w:gridSpan w:val="1"/></w:tcPr></w:tc><w:tc/></w:tr></w:tbl>` -/
+private def c09x_para (t : Str) : XmlNode :=
+  .elem S!"w:p" [] [.elem S!"w:r" [] [.elem S!"w:t" [] [.text t]]]
+private def c09x_tc (tcPr : List XmlNode) (content : List XmlNode) : XmlNode :=
+  .elem S!"w:tc" [] (.elem S!"w:tcPr" [] tcPr :: content)
+private def c09x_exTbl : List XmlNode :=
+  [.elem S!"w:tblPr" [] [], .elem S!"w:tblGrid" [] [],
+   .elem S!"w:tr" [] [.elem S!"w:trPr" [] [.elem S!"w:tblHeader" [] []],
+      c09x_tc [.elem S!"w:vMerge" [(S!"w:val", S!"restart")] []] [c09x_para S!"a"],
+      c09x_tc [.elem S!"w:gridSpan" [(S!"w:val", S!"2")] []] [c09x_para S!"b"]],
+   .elem S!"w:tr" [] [c09x_tc [.elem S!"w:vMerge" [] []] [], .elem S!"w:tc" [] [], .elem S!"w:tc" [] []],
+   .elem S!"w:tr" [] [.elem S!"w:tc" [] [], c09x_tc [.elem S!"w:gridSpan" [(S!"w:val", S!"1")] []] [],
+      .elem S!"w:tc" [] []]]
+
+example : c09x_tableShape c09x_exTbl = true := by decide +kernel
+/-- its XML grid is `c09_ex` without the contents, its first row is a header row -/
+example : c09x_xmlGrid c09x_exTbl = c09_ex.map (fun row => row.map c09x_strip) ∧
+    c09x_xmlHdr c09x_exTbl = [true, false, false] := ⟨rfl, rfl⟩
+example : c09_validGrid (c09x_xmlGrid c09x_exTbl) = true := by decide +kernel
+/-- the reader succeeds on it (fuel 6), without a message -/
+example : ∃ rr st1, readElem {} 6 {} (.elem S!"w:tbl" [] c09x_exTbl) = .ok (rr, st1) ∧ rr.messages = [] :=
+  ⟨_, _, rfl, rfl⟩
+/-- read and converted -/
+example :
+    (match readElem {} 6 {} (.elem S!"w:tbl" [] c09x_exTbl) with
+      | .ok (rr, _) => ((visitAll {} false rr.elements).run {}).toOption.map (·.1)
+      | .error _ => none) =
+    some [el S!"table" []
+      [.forceWrite,
+       el S!"thead" [] [el S!"tr" [] [.forceWrite,
+          el S!"th" [(S!"rowspan", S!"2")] [.forceWrite, el S!"p" [] [.text S!"a"]],
+          el S!"th" [(S!"colspan", S!"2")] [.forceWrite, el S!"p" [] [.text S!"b"]]]],
+       el S!"tbody" []
+         [el S!"tr" [] [.forceWrite, el S!"td" [] [.forceWrite], el S!"td" [] [.forceWrite]],
+          el S!"tr" [] [.forceWrite, el S!"td" [] [.forceWrite], el S!"td" [] [.forceWrite],
+            el S!"td" [] [.forceWrite]]]]] := by rfl
+/-- a `w:gridSpan` that is not a number is a ValueError of the reader; the XML grid then has span 0 and is not valid -/
+example : (match readElem {} 6 {} (.elem S!"w:tbl" []
+      [.elem S!"w:tr" [] [c09x_tc [.elem S!"w:gridSpan" [(S!"w:val", S!"x")] []] []]]) with
+    | .error (.value v) => some v | _ => none) = some S!"x" := by rfl
+example : c09_validGrid (c09x_xmlGrid
+    [.elem S!"w:tr" [] [c09x_tc [.elem S!"w:gridSpan" [(S!"w:val", S!"x")] []] []]]) = false := by decide +kernel
+
 
 end Mammoth
